@@ -131,20 +131,30 @@ func execWorkers(t *trace, script []string) {
 				}
 			}()
 		}
-		go func() {
-			for {
-				select {
-				case <-stopWaiter:
-					return
-				default:
-					w.Wait()
-					time.Sleep(50 * time.Microsecond)
+		// several goroutines wait for the pool to go idle at the same time: the last worker out must wake ALL of them
+		var waiters sync.WaitGroup
+		for k := 0; k < 3; k++ {
+			waiters.Add(1)
+			go func() {
+				defer waiters.Done()
+				for {
+					select {
+					case <-stopWaiter:
+						return
+					default:
+						w.Wait()
+						time.Sleep(50 * time.Microsecond)
+					}
 				}
-			}
-		}()
+			}()
+		}
 		stuck := !waitTimeout(&wg, stepTimeout)
 		polling.Store(false)
 		close(stopWaiter)
+		waitersLeft := false
+		if !stuck && !waitTimeout(&waiters, stepTimeout) {
+			waitersLeft = true
+		}
 		if !stuck {
 			done := make(chan struct{})
 			go func() { w.Wait(); close(done) }()
@@ -160,6 +170,10 @@ func execWorkers(t *trace, script []string) {
 		}
 		if stuck {
 			t.Line("!stuck", "calls did not return within the step timeout")
+			continue
+		}
+		if waitersLeft {
+			t.Line("!stuck", "a goroutine blocked in Wait was not woken although no worker is live")
 			continue
 		}
 		c, tg, q := bigbuff.VerifWorkersState(&w)
